@@ -434,3 +434,22 @@ Definition frame_unloaded (p : profile) (d : dump) (x : Z) : outcome (list (Z * 
 (* EXCEPTION_RECORD (winnt.h / MSDN): ExceptionInformation[0] of an access violation / in-page error is
    0 (read), 1 (write) or 8 (data execution prevention) *)
 Definition documented_access (v : Z) : bool := (v =? 0) || (v =? 1) || (v =? 8).
+
+(* ------------------------------------------------------------------ combinators of the regenerated processor code *)
+(* Option::or, ==, Option::and_then, Option::is_some as used by into_process_state (Gen/C14Process.v) *)
+Definition or_optz (a b : option Z) : option Z := match a with Some _ => a | None => b end.
+Definition optz_eqb (a b : option Z) : bool :=
+  match a, b with Some x, Some y => x =? y | None, None => true | _, _ => false end.
+Definition opt_is_some {A} (o : option A) : bool := match o with Some _ => true | None => false end.
+Definition opt_and_then {A B} (o : option A) (f : A -> option B) : option B :=
+  match o with Some x => f x | None => None end.
+(* self.exception.as_ref().map(|e| e.get_crashing_thread_id()) *)
+Definition crash_tid (d : dump) : option Z := match d_exc d with Some e => Some (e_tid e) | None => None end.
+(* RawMiscInfo::process_id / MinidumpMiscInfo::process_create_time (flag-guarded accessors) *)
+Definition misc_process_id (m : misc) : option Z :=
+  if Z.testbit (mi_flags1 m) MISC1_PROCESS_ID then Some (mi_pid m) else None.
+Definition misc_create_time (m : misc) : option Z :=
+  if Z.testbit (mi_flags1 m) MISC1_PROCESS_TIMES then Some (mi_ctime m) else None.
+(* memory.get_memory_at_address::<u64>(sp) on region k of the memory list: Some iff 8 bytes are readable there *)
+Definition get_u64 (mems : list (Z * Z)) (k sp : Z) : option unit :=
+  if readable_u64 mems k sp then Some tt else None.
